@@ -1,0 +1,78 @@
+package object
+
+import (
+	"context"
+
+	"github.com/risor-io/risor/errz"
+	"github.com/risor-io/risor/op"
+)
+
+// CHAN_ITER is the type of the iterator returned by Chan.Iter.
+const CHAN_ITER Type = "chan_iter"
+
+// ChanIter iterates over the values received from a channel. Each loop over a
+// channel gets its own ChanIter, so that the position and the last received
+// value belong to that loop and are not shared with other receivers.
+type ChanIter struct {
+	*base
+	c            *Chan
+	lastReceived Object
+	rxCount      int64
+}
+
+func (iter *ChanIter) Type() Type {
+	return CHAN_ITER
+}
+
+func (iter *ChanIter) Inspect() string {
+	return "chan_iter(" + iter.c.Inspect() + ")"
+}
+
+func (iter *ChanIter) String() string {
+	return iter.Inspect()
+}
+
+func (iter *ChanIter) Interface() interface{} {
+	return nil
+}
+
+func (iter *ChanIter) Equals(other Object) Object {
+	return NewBool(iter == other)
+}
+
+func (iter *ChanIter) IsTruthy() bool {
+	return true
+}
+
+func (iter *ChanIter) RunOperation(opType op.BinaryOpType, right Object) Object {
+	return TypeErrorf("type error: unsupported operation for %s: %v", CHAN_ITER, opType)
+}
+
+func (iter *ChanIter) MarshalJSON() ([]byte, error) {
+	return nil, errz.TypeErrorf("type error: unable to marshal %s", CHAN_ITER)
+}
+
+func (iter *ChanIter) Next(ctx context.Context) (Object, bool) {
+	select {
+	case <-ctx.Done():
+		return nil, false
+	case value, ok := <-iter.c.value:
+		if !ok {
+			return nil, false
+		}
+		iter.lastReceived = value
+		iter.rxCount++
+		return value, true
+	}
+}
+
+func (iter *ChanIter) Entry() (IteratorEntry, bool) {
+	if iter.lastReceived != nil {
+		return &Entry{
+			key:     NewInt(iter.rxCount - 1),
+			value:   iter.lastReceived,
+			primary: iter.lastReceived,
+		}, true
+	}
+	return nil, false
+}
